@@ -745,6 +745,81 @@ theorem cub3_project_optimal_boundary (s : Cuboid3 K) (p q : V3 K) (solid : Bool
   aabb3_project_optimal_boundary sq _ _ p q solid (cubOk s h)
 
 
+/-- one coordinate of `Aabb::distance_to_local_point`: `max(max(lo-x, x-hi), 0)` is the absolute value of the clamping shift -/
+private theorem clamp_abs (lo hi x : K) (h : lo ≤ hi) :
+    max (max (lo - x) (x - hi)) 0 * max (max (lo - x) (x - hi)) 0
+      = (max (lo - x) 0 - max (x - hi) 0) * (max (lo - x) 0 - max (x - hi) 0) ∧
+    (max (max (lo - x) (x - hi)) 0 = 0 ↔ lo ≤ x ∧ x ≤ hi) := by
+  rcases lt_or_ge x lo with h1 | h1
+  · rw [max_eq_left (by linarith : x - hi ≤ lo - x), max_eq_left (by linarith : (0 : K) ≤ lo - x),
+      max_eq_right (by linarith : x - hi ≤ 0)]
+    exact ⟨by ring, ⟨fun h' => by exfalso; linarith, fun h' => by exfalso; linarith [h'.1]⟩⟩
+  · rcases lt_or_ge hi x with h2 | h2
+    · rw [max_eq_right (by linarith : lo - x ≤ x - hi), max_eq_left (by linarith : (0 : K) ≤ x - hi),
+        max_eq_right (by linarith : lo - x ≤ 0)]
+      exact ⟨by ring, ⟨fun h' => by exfalso; linarith, fun h' => by exfalso; linarith [h'.2]⟩⟩
+    · have e : max (max (lo - x) (x - hi)) 0 = 0 := max_eq_right (max_le (by linarith) (by linarith))
+      rw [e, max_eq_right (by linarith : lo - x ≤ 0), max_eq_right (by linarith : x - hi ≤ 0)]
+      exact ⟨by ring, ⟨fun _ => ⟨h1, h2⟩, fun _ => rfl⟩⟩
+
+/-- **`Aabb::distance_to_local_point`** (own implementation): magnitude `|p - proj|`, and negative only for `solid = false`
+and a point of the box. -/
+theorem aabb3_distance_spec (hs : LawfulSqrt sq) (lo hi p : V3 K) (solid : Bool) (hok : BoxOk3 lo hi) :
+    letI := fieldNum K sq
+    aabbDistance3 lo hi p solid * aabbDistance3 lo hi p solid = dsq3 p (aabbProject3 lo hi p solid).pt ∧
+    (aabbDistance3 lo hi p solid < 0 → solid = false ∧ BoxMem3 lo hi p) := by
+  letI := fieldNum K sq
+  obtain ⟨ax, bx⟩ := clamp_abs lo.x hi.x p.x hok.1
+  obtain ⟨ay, by'⟩ := clamp_abs lo.y hi.y p.y hok.2.1
+  obtain ⟨az, bz⟩ := clamp_abs lo.z hi.z p.z hok.2.2
+  have hzero : ((((lo.sub p).sup (p.sub hi)).sup V3.zero).isZero = true) ↔ BoxMem3 lo hi p := by
+    simp only [V3.isZero, V3.sub, V3.sup, V3.zero, fieldNum_nmax, Bool.and_eq_true, neq_zero_iff, BoxMem3]
+    rw [bx, by', bz]; tauto
+  by_cases hm : BoxMem3 lo hi p
+  · have hZ := hzero.mpr hm
+    cases solid
+    · -- hollow, inside: minus the distance to the projection
+      have hnn : 0 ≤ ((aabbProject3 lo hi p false).pt.sub p).normSq := by
+        simp only [V3.normSq, V3.dot]
+        nlinarith [mul_self_nonneg ((aabbProject3 lo hi p false).pt.sub p).x, mul_self_nonneg ((aabbProject3 lo hi p false).pt.sub p).y,
+          mul_self_nonneg ((aabbProject3 lo hi p false).pt.sub p).z]
+      have h2 := hs.sq_mul _ hnn
+      have h0 := hs.nonneg _ hnn
+      have hd : ((aabbProject3 lo hi p false).pt.sub p).normSq = dsq3 p (aabbProject3 lo hi p false).pt := by
+        simp only [V3.normSq, V3.dot, V3.sub, dsq3]; ring
+      simp only [aabbDistance3, hZ, Bool.false_or, Bool.not_true, Bool.false_eq_true, if_false, V3.norm, fieldNum_sqrt]
+      exact ⟨by rw [← hd]; linear_combination h2, fun _ => ⟨trivial, hm⟩⟩
+    · rw [aabb3_branch_solid sq lo hi p hok hm]
+      have h00 : sq 0 = 0 := by
+        have := hs.sq_mul 0 (le_refl _)
+        exact mul_self_eq_zero.mp this
+      have hsz : (((lo.sub p).sup (p.sub hi)).sup V3.zero).normSq = 0 := by
+        simp only [V3.isZero, Bool.and_eq_true, neq_zero_iff] at hZ
+        simp only [V3.normSq, V3.dot]; rw [hZ.1.1, hZ.1.2, hZ.2]; ring
+      simp only [aabbDistance3, Bool.true_or, if_true, V3.norm, fieldNum_sqrt, hsz, h00, dsq3]
+      exact ⟨by ring, fun h => absurd h (lt_irrefl 0)⟩
+  · have hZ : (((lo.sub p).sup (p.sub hi)).sup V3.zero).isZero = false := by
+      rw [← Bool.not_eq_true]; exact fun h => hm (hzero.mp h)
+    rw [aabb3_branch_out sq lo hi p solid hok hm]
+    have hnn : 0 ≤ (((lo.sub p).sup (p.sub hi)).sup V3.zero).normSq := by
+      simp only [V3.normSq, V3.dot]
+      nlinarith [mul_self_nonneg (((lo.sub p).sup (p.sub hi)).sup V3.zero).x, mul_self_nonneg (((lo.sub p).sup (p.sub hi)).sup V3.zero).y,
+        mul_self_nonneg (((lo.sub p).sup (p.sub hi)).sup V3.zero).z]
+    have h2 := hs.sq_mul _ hnn
+    have h0 := hs.nonneg _ hnn
+    simp only [aabbDistance3, hZ, Bool.not_false, Bool.or_true, if_true, V3.norm, fieldNum_sqrt]
+    refine ⟨?_, fun h => absurd h (not_lt.mpr h0)⟩
+    rw [h2]
+    simp only [V3.normSq, V3.dot, V3.sub, V3.sup, V3.zero, V3.add, fieldNum_nmax, dsq3]
+    rw [ax, ay, az]; ring
+
+/-- **`Cuboid::distance_to_local_point`** -/
+theorem cub3_distance_spec (hs : LawfulSqrt sq) (s : Cuboid3 K) (p : V3 K) (solid : Bool) (h : CubOk3 s) :
+    letI := fieldNum K sq
+    s.distance p solid * s.distance p solid = dsq3 p (s.project p solid).pt ∧
+    (s.distance p solid < 0 → solid = false ∧ s.Mem p) :=
+  aabb3_distance_spec sq hs _ _ p solid (cubOk s h)
+
 /-! ## Triangle, 2-D (`point_triangle.rs`: Voronoi regions of the three vertices, three edges, and the face)
 
 Hypothesis `Tri2Ok`: the triangle is non-degenerate (`perp(ab, ac) ≠ 0`, either orientation).  On a degenerate triangle
